@@ -38,6 +38,10 @@ def cases(tier, seed):
                              land=str(rng.choice(["quad", "sphere", "l1", "rosen"])), where=str(rng.choice(["in", "onb"])), mode=mode, cons=cons,
                              sigma=float(rng.choice([0.05, 0.5])), noise_src="global", max_fun_evals=int(rng.choice([45, 60, 80])),
                              options={"noise_final_samples": int(rng.choice([1, 3, 10]))} if mode != "det" else {})
+        # seed values users actually write, incl. the falsy 0 and non-int spellings
+        sv = [0, 0, 1, 42, 2**31 - 1, 2**32 - 1, "float3", "npint7"][i % 8] if i % 2 == 0 else None
+        if sv is not None:
+            spec["options"]["random_seed"] = sv
         nv = 4 if tier == "quick" else 6
         vs = list(rng.choice(VARIANTS, size=nv, replace=False))
         out.append({"spec": spec, "variants": vs, "pseed": int(rng.integers(1 << 30))})
